@@ -25,6 +25,12 @@ RULE = ("device configurations = mode {bootloader, signer, ui-heartbeat, unknown
         "SEND_PIN/UNLOCK/SGX_UNLOCK APDUs and compares 'unlock sent' and 'served' with a "
         "reference decision function written from the property statement. distinct = "
         "distinct configurations; non-trivial = all")
+RULE_ADDED = (
+              'Also: nine kinds of wrong echo; the device refusing / failing the new PIN; time-out / '
+              'late answer / read error on the UNLOCK exchange; a quarter of the serving '
+              'configurations followed by a link failure, a swap to an unacceptable device and a '
+              'repair attempt cut short (nothing may be served afterwards) ')
+RULE = RULE + " " + RULE_ADDED.strip()
 ASSUMPTIONS = [
     "simulated device + fake transports trusted",
     "'serving' in-process = initialize_device returned normally (comm/server.py calls "
